@@ -93,6 +93,17 @@ def run(ctx):
     pool = Pool(ctx, 25 if ctx.quick else 200)
     for name in SOURCES:
         importlib.import_module("props." + name).run(pool)
+    # matrices with several unbalanced blocks of different sizes: which block's violator is returned must not depend on
+    # the heap addresses the blocks happen to get (the histories use and release heap memory between the calls)
+    brng = ctx.rng.fork("c19-blocks")
+    holes = [[[1, 1], [1, -1]], [[1, 1, 0], [0, 1, 1], [1, 0, 1]], [[1, 1, 0, 0], [0, 1, 1, 0], [0, 0, 1, 1], [1, 0, 0, -1]],
+             [[1, -1, 0], [0, 1, 1], [1, 0, -1]]]
+    for _ in range(40 if ctx.quick else 600):
+        M = []
+        for _k in range(2 + brng.below(3)):
+            B = [r[:] for r in brng.choice(holes)]
+            M = _gen.block_diag(M, B) if M else B
+        pool.items.append((APIS.index("balanced"), "%d %d 1 %s" % (brng.choice([0, 1]), brng.below(2), vlib.mat_line(M)), None))
     rng = ctx.rng.fork("c19-hist")
     nh = 500 if ctx.quick else 12000
     hists = []
